@@ -443,3 +443,32 @@ CHECKS["C09"] = dict(
         technique="exhaustive enumeration of method x outcome x length x entry-point grids on the implementation with memory-residue scanning",
         ref="DESIGN.md 3/C09"),
 )
+
+CHECKS["C17"] = dict(
+    level="exploration",
+    jobs=lambda tier: [dict(name="c17", variant="pic", sources=["e_c17.c"] + RT, libs=["-lgcrypt"], flags=["-DHAVE_CONFIG_H"])],
+    coverage=lambda stats, tier: dict(
+        evaluations=int(stats.get("evaluations", 0)), distinct_nontrivial=int(stats.get("distinct_nontrivial", 0)),
+        rule="DES core through des_set_key/des_set_salt/des_crypt_block against a bit-level FIPS 46-3 reference (itself cross-checked with libgcrypt): "
+             "input families built so that every lookup-table entry is used - block byte i = b (IP, 8x256x2), pre-FP state byte i = b via the "
+             "reference's inverse (FP), key byte i = every 7-bit value x parity x background (PC1), key-register group i = every value through "
+             "inverse PC1 (PC2), weight-1/63 keys x weight-1/63 blocks, counter-derived keys/blocks until all 4x4096 merged S-box pair inputs "
+             "(accounted from the reference's round inputs) are covered; salted/iterated function for every single salt bit, 0, 0xffffff x counts "
+             "{1,2,3,25,26,725} x 64 blocks and all 4096 12-bit salts; salt 0/count 1 vs libgcrypt DES; gen-des-tables output vs checked-in tables. "
+             "API: setkey/encrypt/setkey_r/encrypt_r (GLIBC_2.2.5 symbols) on weight-1/63 vectors with junk bits {0,0xfe,0x80,0x30}: 0/1 outputs, "
+             "equals DES, static == re-entrant, parity ignored, decrypt inverts; histories: BFS to closure over 11 operations against a "
+             "key-register model; distinct_nontrivial = distinct (key, salt, count, ciphertext) results",
+        states=int(stats.get("history_states", 0)), transitions=int(stats.get("history_transitions", 0)),
+        sbox_pair_inputs_covered=int(stats.get("max_sbox_pair_inputs_covered", 0)), sbox_pair_inputs_total=16384),
+    assumptions=["2^56 x 2^64 is not enumerated: completeness is over the table-entry space and the single-bit input space of a table-driven cipher",
+                 "table reads are not observed directly (gcc does not instrument reads of const data): IP/FP/PC1/PC2 coverage is by construction of the inputs, S-box coverage is accounted from the reference's round inputs"],
+    nonvacuous=lambda s, t: None if s.get("core_cases", 0) > 50000 and s.get("api_cases", 0) > 1000 and s.get("max_sbox_pair_inputs_covered", 0) == 16384 else "coverage incomplete",
+    manifest=dict(
+        text="Bounded exhaustive exploration of the structure of a table-driven DES: every table entry of IP, FP, PC1, PC2 and of the merged S-box "
+             "tables is exercised by a constructed input and compared with an independent bit-level FIPS 46-3 model; the salt/iteration extension "
+             "is enumerated per salt bit and count; the obsolete API is enumerated over single-bit vectors and junk-bit patterns, and its "
+             "interplay with crypt/crypt_r/crypt_gensalt is searched to closure against a key-register model.",
+        note="reference DES typed from FIPS 46-3 and validated against libgcrypt on every run; coverage of the S-box tables is derived from the reference, not observed.",
+        technique="exhaustive enumeration of table-entry-covering input families and explicit-state search of API histories on the implementation against a reference model",
+        ref="DESIGN.md 3/C17"),
+)
